@@ -850,6 +850,10 @@ pub fn gen_spec(seed: u64, focus: &str, tier: &str) -> RunSpec {
     if want_meta || sr.chance(1, 2) {
         mask |= site::CLASS_META_OBJ;
     }
+    // the raw primitives underneath (between the load and the CAS of a sub-byte field ...)
+    if (want_meta && sr.chance(1, 2)) || sr.chance(1, 8) {
+        mask |= site::CLASS_META_RAW;
+    }
     if sr.chance(1, 2) {
         mask |= site::CLASS_ALLOC | site::CLASS_POOL;
     }
